@@ -41,4 +41,9 @@ def plan(plan, tier, seed):
         vC11.add_units(plan, "C11")
     except Exception as e:
         plan.anchor_errors.append(("C11.verus.*", repr(e)))
+    try:
+        from units import pos_check
+        pos_check.add(plan, "C11")
+    except Exception as e:
+        plan.anchor_errors.append(("C11.positions.*", repr(e)))
     plan.level = "proof"
